@@ -13,6 +13,7 @@ sources; it is rebuilt when absent.
 from __future__ import annotations
 
 import ast
+import gzip
 import os
 import pickle
 import re
@@ -20,6 +21,7 @@ import sys
 
 from .repo import AnalysisError, Repo, ModuleInfo
 
+_CACHE_KEEP = 400  # whole corpus of overlays (variants + stored patches), ~60 KB each
 CACHE_DIR = os.path.join(os.path.dirname(os.path.dirname(__file__)), ".cache")
 _SCHEMA = 3
 
@@ -222,11 +224,11 @@ class TypeOracle:
         self.repo = repo
         self.table = None
         path = os.path.join(
-            CACHE_DIR, f"types-{_SCHEMA}-{repo.digest[:32]}.pkl"
+            CACHE_DIR, f"types-{_SCHEMA}-{repo.digest[:32]}.pkl.gz"
         )
         if use_cache and os.path.exists(path):
             try:
-                with open(path, "rb") as fh:
+                with gzip.open(path, "rb") as fh:
                     self.table = pickle.load(fh)
                 self.from_cache = True
             except Exception:
@@ -238,14 +240,14 @@ class TypeOracle:
                 try:
                     os.makedirs(CACHE_DIR, exist_ok=True)
                     tmp = f"{path}.{os.getpid()}.tmp"
-                    with open(tmp, "wb") as fh:
+                    with gzip.open(tmp, "wb", compresslevel=3) as fh:
                         pickle.dump(self.table, fh)
                     os.replace(tmp, path)
                     old = sorted(
                         (os.path.join(CACHE_DIR, f) for f in os.listdir(CACHE_DIR) if f.startswith("types-")),
                         key=os.path.getmtime,
                     )
-                    for f in old[:-4]:
+                    for f in old[:-_CACHE_KEEP]:
                         os.remove(f)
                 except OSError:
                     pass
